@@ -8,7 +8,7 @@ CONSTANTS
   Caps = {99}
   AllowEvictLive = FALSE
   AllowForeignDelete = FALSE
-  AllowForeignShorten = TRUE
+  AllowForeignShorten = FALSE
   MaxHist = 0
 INVARIANTS MutualExclusion OnlyOwnerReleases NeverTainted
 CONSTRAINT HighWater
